@@ -323,6 +323,24 @@ func HarnessC01Object() {
 func HarnessC01ObjectSpecials() {
 	s := spec.Schema{}
 	obj := map[string]interface{}{}
+	if verifChoose(3) == 2 {
+		// a member called headers that holds a $ref, rejected by one alternative of a oneOf / anyOf whose
+		// other alternative accepts everything: the composition is satisfied whatever the order
+		closed := spec.Schema{}
+		closed.AdditionalProperties = &spec.SchemaOrBool{Allows: false}
+		alts := []spec.Schema{{}, closed}
+		if verifBool() {
+			alts = []spec.Schema{closed, {}}
+		}
+		if verifBool() {
+			s.OneOf = alts
+		} else {
+			s.AnyOf = alts
+		}
+		obj["headers"] = map[string]interface{}{"X": map[string]interface{}{"$ref": "#/foo"}}
+		checkC01(&s, obj)
+		return
+	}
 	if verifBool() {
 		s.Properties = map[string]spec.Schema{"a": {}}
 		s.AdditionalProperties = &spec.SchemaOrBool{Allows: false}
